@@ -252,6 +252,12 @@ def fanout_case(case):
     tail = case.get("tail")      # main-stream variant: None | "head2" | "nothing"
     op = {"write": ">", "append": ">>", "pipe": "|"}[mode]
     redirect_target = '$t . ".%s"' % ext
+    # path spelling of the target: the same file may be named "x", "./x", "d//x" or "d/./x"; the content must not depend on it
+    pathstyle = case.get("pathstyle", "bare") if mode != "pipe" else "bare"
+    pfx = {"bare": "", "dotslash": "./", "subdir": "d/", "subdir-dslash": "d//", "subdir-dot": "d/./", "dot-subdir": "./d/"}[pathstyle]
+    subdir = "d" if "d/" in pfx else None
+    if pfx:
+        redirect_target = '"%s" . $t . ".%s"' % (pfx, ext)
     if mode == "pipe":
         redirect_target = '"cat > \'" . $t . ".%s\'"' % ext
     if stmt == "tee-dsl":
@@ -284,17 +290,17 @@ def fanout_case(case):
         items_are_lines = "dump"
         main_expect = []
     elif stmt == "split-g":
-        verb = ["split", "-g", "t", "--prefix", "sp", "--suffix", ext]
+        verb = ["split", "-g", "t", "--prefix", pfx + "sp", "--suffix", ext]
         main_expect = []
     elif stmt == "split-g-v":
-        verb = ["split", "-v", "-g", "t", "--prefix", "sp", "--suffix", ext]
+        verb = ["split", "-v", "-g", "t", "--prefix", pfx + "sp", "--suffix", ext]
         main_expect = [dict(r)["id"] for r in recs]
     elif stmt == "split-n":
         cap = max(1, len(recs) // max(1, T))
-        verb = ["split", "-n", str(cap), "--prefix", "sn", "--suffix", ext]
+        verb = ["split", "-n", str(cap), "--prefix", pfx + "sn", "--suffix", ext]
         main_expect = []
     elif stmt == "split-m":
-        verb = ["split", "-m", str(max(1, T)), "--prefix", "sm", "--suffix", ext]
+        verb = ["split", "-m", str(max(1, T)), "--prefix", pfx + "sm", "--suffix", ext]
         main_expect = []
     elif stmt == "tee-verb":
         verb = ["tee"] + (["-a"] if mode == "append" else []) + (["-p"] if mode == "pipe" else []) + \
@@ -312,6 +318,8 @@ def fanout_case(case):
     case_order = []
 
     def route(fn, rid):
+        if stmt != "tee-verb" and subdir:
+            fn = subdir + "/" + fn
         expected.setdefault(fn, []).append(rid)
         case_order.append(fn)
     if stmt.startswith("split-g"):
@@ -337,6 +345,8 @@ def fanout_case(case):
             d = dict(r)
             route(d["t"] + "." + ext, d["id"])
     files = {"in.json": inp}
+    if subdir and stmt != "tee-verb":
+        files[subdir + "/.keep"] = ""
     if mode == "append" and not items_are_lines and rng.random() < 0.6:
         # pre-existing content on a third of the targets: a complete document fragment in the same format
         pass
@@ -370,6 +380,7 @@ def fanout_case(case):
         detail = {"argv": argv, "T": T, "pattern": pattern, "format": fmt, "stmt": stmt, "mode": mode,
                   "gen_seed": case["seed"], "n_records": len(recs), "files": {"in.json": inp if len(inp) < 30000 else inp[:30000] + "...(truncated; regenerate with gen_seed)"}}
         sig0 = {"stmt": stmt.split("-")[0] if stmt.startswith("split") else stmt, "format": fmt, "mode": mode, "beyond_cache": T > 256}
+        bump(res, "pathstyle:" + pathstyle)
         for l in (r.trace or []):
             p = l.split(" ")
             if len(p) >= 2 and p[1].startswith("fo."):
@@ -400,7 +411,7 @@ def fanout_case(case):
             # wait: the sinks' files must stop growing. (Logical completion marker: all children of the session are gone;
             # the runner has killed the process group after exit, so what is on disk now is what the sinks got before.)
             pass
-        after = R.read_files(cwd, exclude=("in.json",))
+        after = R.read_files(cwd, exclude=("in.json", "d/.keep"))
         got_names = set(after)
         exp_names = set(expected)
         if got_names != exp_names:
@@ -641,6 +652,7 @@ def run(chk):
         c["seed"] = f"{chk.seed}/fan/{i}"
         c["tail"] = rng.choice([None, None, "head2", "nothing", "tac-before"])
         c["style"] = rng.choice(["plain", "plain", "spacey", "punct", "unicode"]) if c["mode"] != "pipe" else "plain"
+        c["pathstyle"] = rng.choice(["bare", "bare", "dotslash", "subdir", "subdir-dslash", "subdir-dot", "dot-subdir"])
         if c["fmt"] == "pprint" and c["style"] == "spacey":
             c["style"] = "punct"     # pprint cannot represent a value containing a space (C01 domain)
         c["rpb"] = rng.choice([1, 500])
